@@ -171,17 +171,23 @@ def flat(cs, ty, side, depth=0, seen=()):
 
 
 def flat_eq(a, b):
-    def norm(x):
-        out = []
-        for i in x:
-            if isinstance(i, str) and i.startswith("raw"):
-                out.append("raw")
-            elif isinstance(i, tuple) and i[0] == "loop":
-                out.append(("loop", tuple(norm(list(i[1])))))
-            else:
-                out.append(i)
-        return out
-    return norm(a) == norm(b)
+    """Byte shapes agree; a raw run of unknown length matches a raw run of any length, two known lengths must be equal."""
+    if len(a) != len(b):
+        return False
+    for x, y in zip(a, b):
+        xr = isinstance(x, str) and x.startswith("raw")
+        yr = isinstance(y, str) and y.startswith("raw")
+        if xr and yr:
+            if ":" in x and ":" in y and x != y:
+                return False
+            continue
+        if isinstance(x, tuple) and isinstance(y, tuple) and x[0] == y[0] == "loop":
+            if not flat_eq(list(x[1]), list(y[1])):
+                return False
+            continue
+        if x != y:
+            return False
+    return True
 
 
 def equiv(cs, a, b):
@@ -313,9 +319,10 @@ def run(ctx):
         ty = todo.pop()
         for side in ("enc", "dec"):
             key, sub = cs.lookup(ty, side)
-            if key is None or (key, side) in keys_seen:
+            sk = (key, side, tuple(sorted((sub or {}).items())))
+            if key is None or sk in keys_seen:
                 continue
-            keys_seen.add((key, side))
+            keys_seen.add(sk)
             if key not in closure:
                 closure.append(key)
             trs = cs.traces(key, side) or []
